@@ -217,6 +217,9 @@ class SympyBackend:
         return expr.replace(
             lambda pattern: isinstance(pattern, SYMPY_USER_FUNCTION_TYPES) and str(type(pattern)) == func_name,
             lambda match: sympy_func(*match.args),
+            # Non-simultaneous mode: in simultaneous mode sympy skips a call whose rebuilt form equals one of its
+            # already replaced arguments, e.g. the outer call in g(g(-3)) when the implementation maps -3 to -3.
+            simultaneous=False,
         )
 
     def is_constant_int(self, expr: TExpr[Expr]):
